@@ -303,6 +303,37 @@ pub fn gen_history(rng: &mut Rng, o: &GenOpts) -> (WorldCfg, Vec<Op>) {
         }
     }
 
+    // Directed prologue (round 11): bottom alignment from the start, three or more members drawn, two or more of
+    // them cleared so that the region keeps spare rows, then a log with fewer lines than spare rows and a redraw -
+    // the history that exposes any confusion between the alignment filler and the rows counted as erasable.
+    if o.multi && o.bottom && g.rng.chance(1, 6) {
+        while live.len() < 3 && created < o.max_bars {
+            new_bar(&mut g, &mut created, &mut live, &mut ops);
+        }
+        if live.len() >= 3 {
+            ops.insert(0, Op::Align(true));
+            for &b in &live {
+                ops.push(Op::Tick(b));
+            }
+            let keep = g.rng.usize(live.len());
+            let mut cleared = 0;
+            for (i, &b) in live.iter().enumerate() {
+                if i != keep && (cleared < 2 || g.rng.chance(1, 2)) {
+                    ops.push(Op::Advance(1_000_000_000));
+                    ops.push(Op::FinishClear(b));
+                    cleared += 1;
+                }
+            }
+            for _ in 0..2 {
+                ops.push(Op::Advance(1_000_000_000));
+                let t = g.log_text();
+                ops.push(Op::MpPrintln(t));
+                ops.push(Op::Advance(1_000_000_000));
+                ops.push(Op::Tick(live[keep]));
+            }
+        }
+    }
+
     while ops.len() < n_ops {
         if live.is_empty() && (!o.multi || created >= o.max_bars) {
             break;
